@@ -94,6 +94,12 @@ def rule_deq(ctx, rep):
         rep.check(okc, "C10.deq", tag + ".cmpxchg-shape", "cmpxchg(tail->p, node -> &head->node)", "tail cmpxchg has unexpected operands", [c.inst.where()])
         g = any(a[0] == "eq" and a[2] == ("c", 0) and a[1][0] == "load" and a[1][1].endswith("cds_wfcq_node.next") for a in pat.dom_leaf_atoms(f, c.inst))
         rep.check(g, "C10.deq", tag + ".last-node-only", "the tail is moved back only when node->next == NULL", "tail cmpxchg not guarded by node->next == NULL", [c.inst.where()])
+        sst = [i for i in f.all_insts() if i.op == "store" and i.d["ap"]["base"] == ["a", 2] and ir.const_of(f, i.args[0]) != 0]
+        for s_ in sst:
+            lv = pat.dom_leaf_atoms(f, s_)
+            oks = any(a[0] == "eq" and any(z[0] == "asm" and z[2] == c.inst.id for z in (a[1], a[2])) for a in lv)
+            rep.check(oks, "C10.deq", tag + ".state-after-success", "CDS_WFCQ_STATE_LAST is reported only when the cmpxchg emptying the queue succeeded",
+                      "the `last element` state flag is set without the cmpxchg having succeeded", [s_.where()])
         hs = [s for s in f.all_insts() if s.op == "store" and s.d["ap"]["base"] == ["a", 0] and s.d["ap"]["steps"] and s.d["ap"]["steps"][-1] == "cds_wfcq_node.next"]
         # WOULDBLOCK after the head was cleared must restore head->next
         n = 0
@@ -176,7 +182,48 @@ def rule_legacy(ctx, rep):
         rep.check(len(st) == 1 and f.dominates(xs[0].inst, st[0]) and xs[0].full, "C10.legacy", tag + ".link-after-xchg", "*old_tail := node after the full-barrier exchange", "legacy enqueue link/exchange order broken", [xs[0].inst.where()])
 
 
+ENQ = {"_cds_wfq_enqueue": (1, "_cds_wfq_node_init", "cds_wfq_node.next"), "cds_wfq_enqueue": (1, "cds_wfq_node_init", "cds_wfq_node.next"),
+       "_cds_wfcq_enqueue": (2, "_cds_wfcq_node_init", "cds_wfcq_node.next"), "cds_wfcq_enqueue": (2, "cds_wfcq_node_init", "cds_wfcq_node.next")}
+
+
+def rule_nodeinit(ctx, rep):
+    """a node handed to enqueue has next == NULL: wherever the node is not simply the caller's parameter
+    (a recycled dummy, an embedded rcu_head/work item), it is (re)initialised first"""
+    n = 0
+    for lib in LIBS + ("qsbr", "bp", "mb"):
+        m = ctx.mod(lib, "perfn")
+        for f in m.defined():
+            for c in f.calls():
+                g = m.fn(c.callee)
+                src = g.srcname if g is not None else c.callee
+                if src not in ENQ:
+                    continue
+                argi, initfn, fld = ENQ[src]
+                node = ir.strip_casts(f, c.args[argi], int_too=False)
+                if node[0] == "a":
+                    continue   # pass-through wrapper: the caller owns initialisation
+                n += 1
+                rep.touch(f)
+                nap = c.d["aps"][argi]
+                inits = []
+                for i in f.all_insts():
+                    if i.op == "call":
+                        h = m.fn(i.callee)
+                        hs = h.srcname if h is not None else i.callee
+                        if hs in (initfn, initfn.lstrip("_"), "_" + initfn) and i.d["aps"][0] is not None and ir.ap_str(f, i.d["aps"][0]) == ir.ap_str(f, nap):
+                            inits.append(i)
+                    if i.op == "store" and ir.const_of(f, i.args[0]) == 0 and ir.ap_str(f, i.d["ap"]).startswith(ir.ap_str(f, nap)) and pat.last_field(i.d["ap"]) == fld:
+                        inits.append(i)
+                if not inits:
+                    rep.bad("C10.nodeinit", "%s.%s@%d" % (lib, f.name, c.line), "node is enqueued without having its next pointer reset: a recycled node still points at an already dequeued one, "
+                            "and a dequeuer racing with the enqueue follows the stale pointer (duplicates, lost nodes)", [c.where()])
+                else:
+                    rep.must_pass("C10.nodeinit", "%s.%s@%d" % (lib, f.name, c.line), f, [f.entry()], [c], lambda i: i in inits, include_start=True, what="node->next reset to NULL before the node is enqueued")
+    pat.require(n >= 3, "in-tree enqueue sites not found (%d)" % n)
+
+
 RULES = [
+    ("C10.nodeinit", rule_nodeinit),
     ("C10.append", rule_append),
     ("C10.empty", rule_empty),
     ("C10.deq", rule_deq),
